@@ -1,5 +1,5 @@
 """The checks, one per property. Each builds an Outcome through a number of legs."""
-import os, json, random, copy, time
+import os, re, json, random, copy, time
 import core
 from core import log, Outcome, ToolError
 
@@ -1346,8 +1346,13 @@ def total_files_leg(o, name, files, wd):
             o.traces += 1
             if v["class"] == "mismatch":
                 ob = rec["obs"]
+                loc = ob.get("loc")
+                if not loc and ob.get("class") == "Panic":
+                    # the real binary reports the panic site in its stderr text
+                    m_ = re.search(r"panicked at ((?:/repo/)?src/[^:\s]+:\d+)", ob.get("msg") or "")
+                    loc = m_.group(1) if m_ else None
                 o.violation({"leg": name, "rule": "outcome", "class": ob.get("class"), "msg": ob.get("msg") or ob.get("site"),
-                             "loc": ob.get("loc"), "input_kind": rec["kind"], "text": rec["text"], "status": ob.get("status"),
+                             "loc": loc, "input_kind": rec["kind"], "text": rec["text"], "status": ob.get("status"),
                              "signal": ob.get("signal")},
                             {"text": rec["text"], "input_length": rec["len"], "obs": ob})
             elif len(o.samples) < 6 and rec["kind"] not in [s_.get("input_kind") for s_ in o.samples]:
